@@ -152,4 +152,317 @@ theorem G_client1 (async : Bool) (E : Key → Option Bytes) (c c' : Cfg) (e : Op
     | rot2 => rw [hpc] at hm; cases hm
     | rot3 => rw [hpc] at hm; cases hm
 
+theorem G_client2 (async : Bool) (E : Key → Option Bytes) (c c' : Cfg) (e : Option Ev) (hS : S c) (h : G async E c) :
+    (move async c .close = some (e, c') → G async E c') ∧
+    (move async c .create = some (e, c') → G async E c') ∧
+    (move async c .header = some (e, c') → G async E c') ∧
+    (move async c .handoff = some (e, c') → G async E c') := by
+  refine ⟨?_, ?_, ?_, ?_⟩
+  · intro hm
+    simp only [move] at hm
+    by_cases hc : (c.pc == .rot0 && c.queue.isEmpty && !c.tn) = true
+    · rw [if_pos hc] at hm
+      simp only [Option.some.injEq, Prod.mk.injEq] at hm
+      obtain ⟨_, rfl⟩ := hm
+      exact G_frame h rfl rfl rfl rfl rfl rfl rfl (fun hx => by cases hx)
+    · rw [if_neg hc] at hm; cases hm
+  · intro hm
+    simp only [move] at hm
+    by_cases hc : (c.pc == .rot1) = true
+    · rw [if_pos hc] at hm
+      simp only [Option.some.injEq, Prod.mk.injEq] at hm
+      obtain ⟨_, rfl⟩ := hm
+      exact G_frame h rfl rfl rfl rfl rfl rfl rfl (fun hx => by cases hx)
+    · rw [if_neg hc] at hm; cases hm
+  · intro hm
+    simp only [move] at hm
+    by_cases hc : (c.pc == .rot2) = true
+    · rw [if_pos hc] at hm
+      simp only [Option.some.injEq, Prod.mk.injEq] at hm
+      obtain ⟨_, rfl⟩ := hm
+      exact G_frame h rfl rfl rfl rfl rfl rfl rfl (fun hx => by cases hx)
+    · rw [if_neg hc] at hm; cases hm
+  · intro hm
+    simp only [move] at hm
+    cases hpc : c.pc with
+    | rot3 =>
+      cases hfl : c.fl with
+      | some j => rw [hpc, hfl] at hm; cases hm
+      | none =>
+        rw [hpc, hfl] at hm
+        simp only at hm
+        obtain ⟨hq, _⟩ := hS.pcq (Or.inr (Or.inr hpc))
+        obtain ⟨Hd, e1, e2, e3, e4⟩ := h.ex
+        have hHd : c.hist = Hd := by rw [e1, hq, List.append_nil]
+        have hw : applyMuts [] c.rc = c.w := by have := hS.wq; rw [hq, List.append_nil] at this; exact this
+        have hfs : fStore c = [] := by unfold fStore; rw [hfl]
+        -- what is served does not change: the records of the closed file are the handed-over store
+        have hserved : ∀ (s' : State), s'.tables = c.tables → (∀ k, Layer.get s'.r k = Layer.get c.w k) →
+            served s' [] = served (memState c) c.rc := by
+          intro s' ht hr
+          funext k
+          unfold served base
+          rw [ht, hr k, hw]
+          show _ = vis ((Layer.get c.w k).or ((Layer.get (fStore c) k).or _))
+          rw [hfs]
+          simp [applyMuts_nil, layerGet_nil]
+          rfl
+        by_cases hwe : c.w.isEmpty = true
+        · rw [if_pos hwe] at hm
+          simp only [Option.some.injEq, Prod.mk.injEq] at hm
+          obtain ⟨_, rfl⟩ := hm
+          have hw0 : c.w = [] := by simpa using hwe
+          refine ⟨⟨Hd, ?_, ?_, ?_, ?_⟩, Nat.le_refl _, Nat.le_succ _, fun _ => rfl⟩
+          · show c.hist = Hd ++ c.queue
+            exact e1
+          · rw [← e2]
+            apply hserved _ rfl
+            intro k
+            show Layer.get [] k = _
+            rw [hw0]
+          · show c.hist.length ≤ Hd.length
+            rw [hHd]; exact Nat.le_refl _
+          · intro _; show c.hist.length ≤ Hd.length; rw [hHd]; exact Nat.le_refl _
+        · rw [if_neg hwe] at hm
+          simp only [Option.some.injEq, Prod.mk.injEq] at hm
+          obtain ⟨_, rfl⟩ := hm
+          refine ⟨⟨Hd, ?_, ?_, ?_, ?_⟩, Nat.le_refl _, Nat.le_succ _, fun _ => rfl⟩
+          · show c.hist = Hd ++ c.queue
+            exact e1
+          · rw [← e2]
+            exact hserved _ rfl (fun k => rfl)
+          · show c.hist.length ≤ Hd.length
+            rw [hHd]; exact Nat.le_refl _
+          · intro _; show c.hist.length ≤ Hd.length; rw [hHd]; exact Nat.le_refl _
+    | idle => rw [hpc] at hm; cases hm
+    | app r => rw [hpc] at hm; cases hm
+    | rot0 => rw [hpc] at hm; cases hm
+    | rot1 => rw [hpc] at hm; cases hm
+    | rot2 => rw [hpc] at hm; cases hm
+
+theorem G_bg (async : Bool) (E : Key → Option Bytes) (c c' : Cfg) (e : Option Ev) (hS : S c) (h : G async E c) :
+    (move async c .fstep = some (e, c') → G async E c') ∧
+    (move async c .fadd = some (e, c') → G async E c') ∧
+    (∀ sizes th o, move async c (.kstart sizes th o) = some (e, c') → G async E c') ∧
+    (move async c .kreflect = some (e, c') → G async E c') ∧
+    (∀ jk, move async c (.kstep jk) = some (e, c') → G async E c') := by
+  refine ⟨?_, ?_, ?_, ?_, ?_⟩
+  · intro hm
+    simp only [move] at hm
+    cases hfl : c.fl with
+    | none => rw [hfl] at hm; cases hm
+    | some j =>
+      rw [hfl] at hm
+      simp only at hm
+      cases he : (flushCalls j)[j.stage]? with
+      | none => rw [he] at hm; cases hm
+      | some ev =>
+        rw [he] at hm
+        simp only [Option.some.injEq, Prod.mk.injEq] at hm
+        obtain ⟨_, rfl⟩ := hm
+        exact G_frame h rfl rfl rfl rfl rfl (by unfold fStore; rw [hfl]) rfl (fun hx => hx)
+  · intro hm
+    simp only [move] at hm
+    split at hm
+    · cases hm
+    · rename_i _ _ j hfl hnr0
+      by_cases hs : j.stage = 6
+      · rw [if_pos hs] at hm
+        simp only [Option.some.injEq, Prod.mk.injEq] at hm
+        obtain ⟨_, rfl⟩ := hm
+        obtain ⟨Hd, e1, e2, e3, e4⟩ := h.ex
+        refine ⟨⟨Hd, e1, ?_, e3, e4⟩, h.a1, h.a2, h.a3⟩
+        rw [← e2]
+        funext k
+        unfold served base memState fStore
+        rw [hfl]
+        simp only [tablesGet_append, tablesGet_single, layerGet_nil, Option.none_or]
+      · rw [if_neg hs] at hm; cases hm
+    · cases hm
+  · intro sizes th o hm
+    simp only [move] at hm
+    cases hkj : c.kj with
+    | idle =>
+      rw [hkj] at hm
+      simp only at hm
+      split at hm
+      · cases hm
+      · split at hm
+        · simp only [Option.some.injEq, Prod.mk.injEq] at hm
+          obtain ⟨_, rfl⟩ := hm
+          exact G_frame h rfl rfl rfl rfl rfl rfl rfl (fun hx => hx)
+        · cases hm
+    | merging => rw [hkj] at hm; cases hm
+    | reflecting => rw [hkj] at hm; cases hm
+  · intro hm
+    simp only [move] at hm
+    split at hm
+    · simp only [Option.some.injEq, Prod.mk.injEq] at hm
+      obtain ⟨_, rfl⟩ := hm
+      exact G_frame h rfl rfl rfl rfl rfl rfl rfl (fun hx => hx)
+    · cases hm
+  · intro jk hm
+    simp only [move] at hm
+    cases hkj : c.kj with
+    | idle => rw [hkj] at hm; cases hm
+    | merging npre nsel cells st =>
+      rw [hkj] at hm
+      simp only at hm
+      cases he : (mergeCalls (kMeta c.tables npre nsel) cells)[st]? with
+      | none => rw [he] at hm; cases hm
+      | some ev =>
+        rw [he] at hm
+        simp only [Option.some.injEq, Prod.mk.injEq] at hm
+        obtain ⟨_, rfl⟩ := hm
+        exact G_frame h rfl rfl rfl rfl rfl rfl rfl (fun hx => hx)
+    | reflecting npre nsel cells j sub J =>
+      rw [hkj] at hm
+      simp only at hm
+      have hk := hS.kwf
+      unfold KWf at hk
+      rw [hkj] at hk
+      have hsub3 : sub = 0 ∨ sub = 1 ∨ sub = 2 ∨ sub = 3 := by have := hk.2.2.2.2.1; omega
+      cases hget : (kIns c.tables npre nsel)[j]? with
+      | none =>
+        rw [hget] at hm
+        simp only [Option.some.injEq, Prod.mk.injEq] at hm
+        obtain ⟨_, rfl⟩ := hm
+        obtain ⟨Hd, e1, e2, e3, e4⟩ := h.ex
+        refine ⟨⟨Hd, e1, ?_, e3, e4⟩, h.a1, h.a2, h.a3⟩
+        rw [← e2]
+        refine served_vis (memState c) _ c.rc rfl ?_
+        intro k
+        show vis (tablesGet (c.tables.take npre ++ [{ gen := (kMeta c.tables npre nsel).replacement, cells := cells }] ++
+          c.tables.drop (npre + nsel)) k) = vis (tablesGet c.tables k)
+        conv => rhs; rw [split3 c.tables npre nsel]
+        rw [hk.2.2.1]
+        exact vis_tablesGet_merge _ _ _ _ (npre == 0) (by
+          intro hd
+          have : npre = 0 := by simpa using hd
+          rw [this]; rfl) k
+      | some t =>
+        rw [hget] at hm
+        simp only at hm
+        rcases hsub3 with (rfl | rfl | rfl | rfl)
+        · cases jk with
+          | some J' =>
+            simp only [Option.some.injEq, Prod.mk.injEq] at hm
+            obtain ⟨_, rfl⟩ := hm
+            exact G_frame h rfl rfl rfl rfl rfl rfl rfl (fun hx => hx)
+          | none =>
+            simp only [Option.some.injEq, Prod.mk.injEq] at hm
+            obtain ⟨_, rfl⟩ := hm
+            exact G_frame h rfl rfl rfl rfl rfl rfl rfl (fun hx => hx)
+        · simp only [Option.some.injEq, Prod.mk.injEq] at hm
+          obtain ⟨_, rfl⟩ := hm
+          exact G_frame h rfl rfl rfl rfl rfl rfl rfl (fun hx => hx)
+        · simp only [Option.some.injEq, Prod.mk.injEq] at hm
+          obtain ⟨_, rfl⟩ := hm
+          exact G_frame h rfl rfl rfl rfl rfl rfl rfl (fun hx => hx)
+        · simp only [Option.some.injEq, Prod.mk.injEq] at hm
+          obtain ⟨_, rfl⟩ := hm
+          exact G_frame h rfl rfl rfl rfl rfl rfl rfl (fun hx => hx)
+
+theorem G_move (async : Bool) (E : Key → Option Bytes) (c c' : Cfg) (e : Option Ev) (mv : Mv) (hS : S c)
+    (h : G async E c) (hm : move async c mv = some (e, c')) : G async E c' := by
+  cases mv with
+  | begin => exact (G_client1 async E c c' e hS h).1 hm
+  | torn => exact (G_client1 async E c c' e hS h).2.1 hm
+  | append => exact (G_client1 async E c c' e hS h).2.2.1 hm
+  | done => exact (G_client1 async E c c' e hS h).2.2.2 hm
+  | close => exact (G_client2 async E c c' e hS h).1 hm
+  | create => exact (G_client2 async E c c' e hS h).2.1 hm
+  | header => exact (G_client2 async E c c' e hS h).2.2.1 hm
+  | handoff => exact (G_client2 async E c c' e hS h).2.2.2 hm
+  | fstep => exact (G_bg async E c c' e hS h).1 hm
+  | fadd => exact (G_bg async E c c' e hS h).2.1 hm
+  | kstart sizes th o => exact (G_bg async E c c' e hS h).2.2.1 sizes th o hm
+  | kreflect => exact (G_bg async E c c' e hS h).2.2.2.1 hm
+  | kstep jk => exact (G_bg async E c c' e hS h).2.2.2.2 jk hm
+
+theorem SG_run (async : Bool) (E : Key → Option Bytes) (sched : List Mv) :
+    ∀ c, S c → G async E c → S (FSI.run async c sched) ∧ G async E (FSI.run async c sched) := by
+  induction sched with
+  | nil => intro c h g; exact ⟨h, g⟩
+  | cons mv rest ih =>
+    intro c h g
+    simp only [FSI.run]
+    cases hm : move async c mv with
+    | none => exact ih c h g
+    | some r =>
+      obtain ⟨e, c'⟩ := r
+      exact ih c' (S_move async c c' e mv h hm) (G_move async E c c' e mv h g hm)
+
+/-! ## the configuration right after `Open` -/
+
+theorem recover_state_facts (d : Disk) (h : DiskOk d) (o : Opts) (d' : Disk) (s : State)
+    (hr : recover d o = .ok (d', s)) : s.isOpen = true ∧ s.closed = false ∧ s.flushPending = false ∧ s.w = [] := by
+  rw [recover_eq d h] at hr
+  unfold phase3 at hr
+  split at hr
+  · cases hr
+  · simp only at hr
+    split at hr <;> cases hr <;> exact ⟨rfl, rfl, rfl, rfl⟩
+
+theorem start_SG (d0 : Disk) (h0 : DiskOk d0) (o0 : Opts) (d1 : Disk) (s1 : State)
+    (hr0 : recover d0 o0 = .ok (d1, s1)) (prog : List Op) (async : Bool) :
+    S (start d1 (openedVol s1) prog) ∧ G async (logical d0) (start d1 (openedVol s1) prog) := by
+  have hq := recover_QW d0 h0 o0 d1 s1 hr0
+  obtain ⟨ho, hc, hp, hw⟩ := recover_state_facts d0 h0 o0 d1 s1 hr0
+  have hu : usable (openedVol s1).s = true := by unfold usable; show (s1.isOpen && !s1.closed) = true; rw [ho, hc]; rfl
+  obtain ⟨hwd, _, _⟩ := hq.live hu
+  have hwal : d1.wal = [{ num := 0 }] := by
+    rw [hq.wal]
+    have hu' : usable s1 = true := hu
+    simp [liveFiles, openedVol, hu', hp]
+  have hS : S (start d1 (openedVol s1) prog) := {
+    tbl := by
+      show d1.tables = encT s1.tables ++ []
+      rw [List.append_nil]; exact hq.tables
+    comps := hq.comps
+    walDir := hwd
+    wal := by
+      show d1.wal = [] ++ [] ++ [{ num := 0, recs := [], torn := false }] ++ []
+      rw [hwal]; rfl
+    gensS := hq.inv.gens.1
+    gensLe := hq.inv.gens.2
+    fwf := by intro j hj; cases hj
+    jk := by intro f hf; cases hf
+    nums := by
+      show (([] ++ [] ++ [({ num := 0, recs := [], torn := false } : WalFile)]).map WalFile.num).Pairwise (· < ·)
+      simp
+    rcOk := by intro m hm; cases hm
+    qOk := by intro m hm; cases hm
+    wq := by show applyMuts [] ([] ++ []) = s1.w; rw [hw]; rfl
+    tnq := by intro hf; cases hf
+    pcq := by intro hx; rcases hx with (hx | hx | hx) <;> cases hx
+    kwf := trivial }
+  refine ⟨hS, ⟨[], rfl, ?_, Nat.le_refl _, fun _ => Nat.le_refl _⟩, Nat.le_refl _, Nat.le_succ _, fun _ => rfl⟩
+  rw [← hS.serves]
+  exact (recover_diskOk d0 h0 o0 d1 s1 hr0).2
+
+/-- the conclusion shared by the two interleaving theorems: at every moment of every schedule the disk is
+well-formed, `Open` succeeds on it, and serves the reference after a prefix `hist.take p` of the mutations begun so
+far that contains everything up to the last completed rotation; at most one call is in flight; with the
+synchronous WAL the prefix contains every acknowledged mutation -/
+theorem interleaved_good (d0 : Disk) (h0 : DiskOk d0) (o0 : Opts) (d1 : Disk) (s1 : State)
+    (hr0 : recover d0 o0 = .ok (d1, s1)) (prog : List Op) (async : Bool) (sched : List Mv) (o : Opts) :
+    let c := FSI.run async (start d1 (openedVol s1) prog) sched
+    DiskOk c.d ∧ c.acked ≤ c.hist.length ∧ c.hist.length ≤ c.acked + 1 ∧
+      ∃ d' s p, recover c.d o = .ok (d', s) ∧ c.mark ≤ p ∧ p ≤ c.hist.length ∧ (async = false → c.acked ≤ p) ∧
+        abs s = applySpec (logical d0) (c.hist.take p) := by
+  intro c
+  obtain ⟨hS0, hG0⟩ := start_SG d0 h0 o0 d1 s1 hr0 prog async
+  obtain ⟨hS, hG⟩ := SG_run async (logical d0) sched _ hS0 hG0
+  have hok : DiskOk c.d := hS.diskOk
+  obtain ⟨d', s, hr⟩ := recover_ok c.d hok o
+  obtain ⟨Hd, e1, e2, e3, e4⟩ := hG.ex
+  refine ⟨hok, hG.a1, hG.a2, d', s, Hd.length, hr, e3, ?_, e4, ?_⟩
+  · show Hd.length ≤ c.hist.length
+    rw [e1]; simp
+  · rw [recover_abs c.d o d' s hr, hS.serves, e2]
+    congr 1
+    show Hd = c.hist.take Hd.length
+    rw [e1, List.take_left]
+
 end SST.Proofs.FSI
